@@ -45,7 +45,7 @@ Fixpoint thirds_ok (rtol xi : Q) (ws : list Q) (iu iv ia : list (list Q)) : bool
   match ws, iu, iv, ia with
   | [], [], [], [] => true
   | w :: ws', u :: iu', v :: iv', a :: ia' =>
-      third_ok (rtol * (Qabs (2 * xi * w) * qabsmax v + w * w * qabsmax u)) xi w u v a && thirds_ok rtol xi ws' iu' iv' ia'
+      third_ok (rtol * (Qabs (2 * xi * w) * qabsmax v + w * w * qabsmax u) + (1 # (2 ^ 1000)%positive)) xi w u v a && thirds_ok rtol xi ws' iu' iv' ia'
   | _, _, _, _ => false
   end.
 Definition zero_row_ok (c : case) : bool :=
@@ -61,6 +61,9 @@ Definition zero_row_ok (c : case) : bool :=
     [nj_step] of the previous one, within rtol * (sum of the absolute values of the four terms) — about 1000 roundings.
     With tolerance 0 this forces the series to BE [nj_series] (induction over the samples); it keeps every number at
     binary64 size, so records of any length can be checked. *)
+(** absolute floor (2^-1000): below it binary64 is in its subnormal range and relative error bounds do not apply *)
+Definition tiny : Q := 1 # (2 ^ 1000)%positive.
+
 Definition term_scale (c : coeffs Q) (u v f0 f1 : Q) : Q * Q :=
   (Qabs (a11 c * u) + Qabs (a12 c * v) + Qabs (b11 c * f0) + Qabs (b12 c * f1),
    Qabs (a21 c * u) + Qabs (a22 c * v) + Qabs (b21 c * f0) + Qabs (b22 c * f1)).
@@ -70,7 +73,7 @@ Fixpoint local_from (rtol : Q) (c : coeffs Q) (u v f0 : Q) (us vs fs : list Q) :
   | u1 :: us', v1 :: vs', f1 :: fs' =>
       let '(mu, mv) := nj_step c (u, v) f0 f1 in
       let '(su, sv) := term_scale c u v f0 f1 in
-      qclose (rtol * su) mu u1 && qclose (rtol * sv) mv v1 && local_from rtol c u1 v1 f1 us' vs' fs'
+      qclose (rtol * su + tiny) mu u1 && qclose (rtol * sv + tiny) mv v1 && local_from rtol c u1 v1 f1 us' vs' fs'
   | _, _, _ => false
   end.
 Definition local_row (rtol : Q) (c : coeffs Q) (rec us vs : list Q) : bool :=
